@@ -303,6 +303,63 @@ def build_world(ck, work, quick, rnd=0):
                 rel = deep_path(total, bn)
                 write_deep(wb, rel, mfpdata)
                 late.append(Op(new_id(), "mfp", "path", rel, None, None, "fail", [], 0, "module path of %d bytes" % total))
+    # ---- directories whose NAMES contain what the loaders' path surgery looks for ('-', '.', blanks, "smp." / ".set"
+    # look-alikes), at several depths; companion present and MISSING; decoys wherever a wrong cut would land
+    mfpdata = open(os.path.join(CORPUS, "m", "mfp.crystaldragon title"), "rb").read()
+    smpdata = open(os.path.join(CORPUS, "m", "smp.crystaldragon title"), "rb").read()
+    fltdata = flt_module()
+    surgery = [b"my-mods", b"a.b-c d", b"smp.x-y", b"x.set-", b"-lead", b"mods.set", b"outer-dir/inner", b"o-1/smp.i-2/mfp.d-3",
+               b"dot.dir/sub dir", b"trail-/"]
+    if quick:
+        surgery = surgery[:3] + rng.sample(surgery[3:], 3)
+    for sd in surgery:
+        sd = sd.rstrip(b"/")
+        moddir = os.path.join(wb, sd)
+        os.makedirs(moddir, exist_ok=True)
+        populate_sample_dir(moddir)
+        made = []           # (fmt, file name, sample names, name width)
+        for bn, comp in ((b"mfp.crystal", b"smp.crystal"), (b"mfp.nocomp", None), (b"mfp.two words", None),
+                         (b"mfp.kid-chaos", b"smp.kid.set"), (b"mfp.kid-none", None), (b"mfp.a-b-c", b"smp.a-b-c"),
+                         (b"mfp.x.set", None), (b"mfp.smp.", None)):
+            open(os.path.join(moddir, bn), "wb").write(mfpdata)
+            if comp:
+                open(os.path.join(moddir, comp), "wb").write(smpdata)
+            made.append(("mfp", bn, [], 0))
+        for bn, comp in ((b"trek.flt", None), (b"trek-2.flt", b"trek-2.flt.nt"), (b"a.b.flt", b"a.b.flt.AS")):
+            open(os.path.join(moddir, bn), "wb").write(fltdata)
+            if comp:
+                open(os.path.join(moddir, comp), "wb").write(b"ST1.2 ModuleINFO" + bytes(24 * 120))
+            made.append(("flt", bn, [], 0))
+        nm = name_sets(31, 22)
+        open(os.path.join(moddir, b"song-1.x.mod"), "wb").write(mod_song(nm))
+        made.append(("mod", b"song-1.x.mod", nm, 22))
+        nm = name_sets(31, 12)
+        open(os.path.join(moddir, b"song.stm"), "wb").write(stm_song(nm))
+        made.append(("stm", b"song.stm", nm, 12))
+        nm = name_sets(3, 31)
+        open(os.path.join(moddir, b"song-4.med"), "wb").write(med4_song(nm))
+        made.append(("med4", b"song-4.med", nm, 31))
+        styles = [sd + b"/", b"./" + sd + b"/", moddir + b"/"]
+        for fmt, fname, names, nlen in made:
+            for style in styles if fmt in ("mfp", "flt") else [rng.choice(styles)]:
+                modpath = style + fname
+                # decoys: every place a cut at some '-' or '.' of the path (+ a companion suffix) would reach outside the directory
+                for i, ch in enumerate(modpath):
+                    if ch in b"-." and i < len(style) - 1:
+                        for sfx in (b".set", b".NT", b".nt", b".AS", b".as", b""):
+                            decoy = os.path.join(wb, modpath[:i] + sfx)
+                            if sfx and not os.path.lexists(decoy) and len(decoy) < 1000:
+                                try:
+                                    open(decoy, "wb").write(smpdata)
+                                except OSError:
+                                    pass
+                ctxins = envins = None
+                if fmt in ("mod", "stm", "med4") and rng.random() < 0.4:
+                    ctxins = rng.choice(surgery).rstrip(b"/")
+                ops.append(Op(new_id(), fmt, "path", modpath, ctxins, envins, "fail", names, nlen, "directory name with path-surgery characters"))
+            if fmt in ("mfp", "flt"):
+                ops.append(Op(new_id(), fmt, rng.choice(["mem", "file", "cb"]), sd + b"/" + fname, None, None, "fail", names, nlen,
+                              "directory name with path-surgery characters"))
     return ops + late
 
 
